@@ -78,7 +78,8 @@ func (o Option) DesignateNode(key ...string) Option {
 // e.g.
 // DesignateNodeWithPath({"sub graph node key", "node key within sub graph"})
 func (o Option) DesignateNodeWithPath(path ...*NodePath) Option {
-	o.paths = append(o.paths, path...)
+	// o is a copy of the receiver but shares its paths: do not append into the spare capacity of that slice
+	o.paths = append(o.paths[:len(o.paths):len(o.paths)], path...)
 	return o
 }
 
